@@ -401,7 +401,9 @@ class Ast:
                         elif n["k"] == "MethodCall" and n["method"] == nm:
                             calls += 1
                 refs = uses.get(nm, 0)
-                if calls == 1 and refs <= 2:
+                # an extracted helper: private, called from one to three places, and small
+                nst = len(fl[0].body.get("stmts", [])) if fl[0].body.get("k") == "Block" else 1
+                if 1 <= calls <= 3 and refs <= 2 * calls and nst <= 8 and not any(n["k"] in ("Call", "MethodCall") and (n.get("method") == nm or (n["k"] == "Call" and is_node(n["func"]) and n["func"]["k"] == "Path" and n["func"]["path"].split("::")[-1] == nm)) for n in walk(fl[0].body)):
                     out[nm] = fl[0].node
         self._helpers[file] = out
         return out
